@@ -473,4 +473,6 @@ TRUSTED_BASE = [
     "Coq standard library (ZArith, Lists, Strings, Floats); no axioms declared by this development",
     "the hand-written Gallina model of the listed Go functions, tied to /repo by the correspondence runs of this check",
     "the Go harness (/verif/harness, built with -tags verif against /repo) and this Python driver transmit cases and results unchanged",
+    "the translator (harness `consts`/`builtins` + tools/gen_consts.py): it reads constants, operator tables and built-in trees "
+    "from the source and writes them as Coq definitions; coq/CheckConsts.v proves the models use exactly those",
 ]
